@@ -1029,6 +1029,15 @@ func (r *Resolver) answer(ctx context.Context, req, resp *dns.Msg, parentDS []dn
 		if r.dnssec && !r.hasTrustAnchors() {
 			return nil, dnssec.ErrTrustAnchorsUnavailable
 		}
+		if r.dnssec && zone == rootzone && len(parentDS) == 0 {
+			// The root has no parent DS: its chain starts at the trust
+			// anchors, as in validateDelegation. Without this an unsigned
+			// or foreign-signed root answer reads as an insecure zone.
+			var dsErr error
+			if parentDS, dsErr = r.dsRRFromRootKeys(ctx); dsErr != nil {
+				return nil, dsErr
+			}
+		}
 		q := req.Question[0]
 
 		signers := r.findRRSIGSigners(resp, q.Name, true)
@@ -1193,6 +1202,15 @@ func (r *Resolver) authority(ctx context.Context, req, resp *dns.Msg, parentDS [
 	if !req.CheckingDisabled {
 		if r.dnssec && !r.hasTrustAnchors() {
 			return nil, dnssec.ErrTrustAnchorsUnavailable
+		}
+		if r.dnssec && zone == rootzone && len(parentDS) == 0 {
+			// The root has no parent DS: its chain starts at the trust
+			// anchors, as in validateDelegation. Without this an unsigned
+			// or foreign-signed root answer reads as an insecure zone.
+			var dsErr error
+			if parentDS, dsErr = r.dsRRFromRootKeys(ctx); dsErr != nil {
+				return nil, dsErr
+			}
 		}
 		q := req.Question[0]
 
